@@ -316,6 +316,13 @@ Definition c09_rca (X : list (list Q)) (chunks : list Z) (nchunks : nat) (L : li
 From ML Require Import FExp Objectives.
 Definition c10_nca (L X : list (list fl)) (y : list Z) (loss_impl : fl) : bool :=
   fclose f1em9 f1em12 (@nca_obj FOps fexp L X y) loss_impl.
+(* the gradient NCA hands to the optimiser against the Coq model of 2 (X L^T)^T S X (Model/NCAGrad.v), the model the
+   derivative theorem C10_nca_gradient is about; also its loss in index form *)
+From ML Require Import NCAGrad.
+Definition c10_nca_grad (k d : nat) (L X : list (list fl)) (y : list Z) (loss_impl : fl) (grad_impl : list (list fl)) : bool :=
+  fclose f1em9 f1em12 (@nca_loss FOps fexp L X y) loss_impl &&
+  fmclose f1em6 (PrimFloat.mul f1em9 (PrimFloat.add PrimFloat.one (fmaxabs grad_impl)))
+          (@nca_grad FOps fexp k d L X y) grad_impl.
 Definition c10_mlkr (L X : list (list fl)) (y : list fl) (loss_impl : fl) : bool :=
   fclose f1em9 f1em12 (@mlkr_obj FOps fexp L X y) loss_impl.
 Definition c10_lmnn (reg : fl) (L X : list (list fl)) (y : list Z) (targets : list (list nat)) (obj_impl : fl) : bool :=
